@@ -1510,6 +1510,9 @@ int input_to (svalue_t * fun, int flag, int num_arg, svalue_t * args) {
       callback_funp = make_lfun_funp_by_name (fun->u.string, &dummy); /* ref = 1, by sentence->function.f */
       if (!callback_funp)
         {
+          /* set_call() has already attached the sentence: take it off again */
+          command_giver->interactive->input_to = 0;
+          free_sentence (s);
           error ("Function '%s' not found in input_to", fun->u.string);
         }
     }
@@ -1520,6 +1523,7 @@ int input_to (svalue_t * fun, int flag, int num_arg, svalue_t * args) {
     }
   else
     {
+      command_giver->interactive->input_to = 0;
       free_sentence (s);
       error ("input_to: fun must be string or function");
     }
@@ -1579,6 +1583,9 @@ int get_char (svalue_t * fun, int flag, int num_arg, svalue_t * args) {
       callback_funp = make_lfun_funp_by_name (fun->u.string, &dummy);
       if (!callback_funp)
         {
+          /* set_call() has already attached the sentence: take it off again */
+          command_giver->interactive->input_to = 0;
+          free_sentence (s);
           error ("Function '%s' not found in get_char", fun->u.string);
         }
     }
@@ -1589,6 +1596,7 @@ int get_char (svalue_t * fun, int flag, int num_arg, svalue_t * args) {
     }
   else
     {
+      command_giver->interactive->input_to = 0;
       free_sentence (s);
       error ("get_char: fun must be string or function");
     }
